@@ -782,3 +782,69 @@ def clone(f, builtins_extra=None, importer=None, **over):
     c.__kwdefaults__ = f.__kwdefaults__
     c.__symx_clone_of__ = f
     return c
+
+
+# ----------------------------------------------------------------------------- whole-module cloning
+def clone_module(mod, overrides, subst=None, builtins_extra=None, importer=None):
+    """Every function of `mod` (module level and methods of its classes) re-created over ONE shared namespace in which
+    `overrides` replace module-level names.  `subst` maps id(real object) -> stand-in and is applied to module-level
+    containers too (dispatch tables built at import time), so refactorings that move code into helpers or tables
+    are still redirected.  Returns the namespace (classes are subclasses carrying the cloned methods)."""
+    subst = dict(subst or {})
+    G = dict(mod.__dict__)
+    G["__builtins__"] = make_builtins(builtins_extra, importer)
+    for name, obj in overrides.items():
+        if name in mod.__dict__:
+            subst.setdefault(id(mod.__dict__[name]), obj)
+        G[name] = obj
+
+    def re(f):
+        f0 = getattr(f, "py_func", f)
+        c = types.FunctionType(f0.__code__, G, f0.__name__, f0.__defaults__, f0.__closure__)
+        c.__kwdefaults__ = f0.__kwdefaults__
+        c.__dict__.update(getattr(f0, "__dict__", {}))
+        return c
+
+    def sub(o, depth=0):
+        if id(o) in subst:
+            return subst[id(o)]
+        if depth > 3:
+            return o
+        if isinstance(o, dict):
+            return {sub(k, depth + 1) if not isinstance(k, (str, int, float, bool, type(None))) else k: sub(v, depth + 1) for k, v in o.items()}
+        if isinstance(o, list):
+            return [sub(v, depth + 1) for v in o]
+        if isinstance(o, tuple):
+            return tuple(sub(v, depth + 1) for v in o)
+        return o
+    for name, obj in list(mod.__dict__.items()):
+        if name in overrides or name.startswith("__"):
+            continue
+        f0 = getattr(obj, "py_func", None) or obj
+        if isinstance(f0, types.FunctionType) and f0.__module__ == mod.__name__:
+            G[name] = re(obj)
+            subst[id(obj)] = G[name]
+    for name, obj in list(mod.__dict__.items()):
+        if name in overrides or name.startswith("__"):
+            continue
+        if isinstance(obj, type) and obj.__module__ == mod.__name__:
+            ns = {}
+            for k, v in vars(obj).items():
+                if isinstance(v, types.FunctionType):
+                    ns[k] = re(v)
+                elif isinstance(v, (staticmethod, classmethod)) and isinstance(v.__func__, types.FunctionType):
+                    ns[k] = type(v)(re(v.__func__))
+                elif isinstance(v, property):
+                    ns[k] = property(re(v.fget) if v.fget else None, re(v.fset) if v.fset else None)
+            try:
+                G[name] = type(obj.__name__, (obj,), ns)
+            except TypeError:
+                continue
+            subst[id(obj)] = G[name]
+    for name, obj in list(mod.__dict__.items()):
+        if name in overrides or name.startswith("__"):
+            continue
+        if isinstance(obj, (dict, list, tuple)) and name not in ("__builtins__",):
+            new = sub(obj)
+            G[name] = new
+    return G
